@@ -31,11 +31,30 @@ def main():
     rec = {"property": prop, "breaks": meta.get("summary"), "needs_to_manifest": meta.get("needs_to_manifest"), "crates": crates, "ran": []}
     tdir = {"CARGO_TARGET_DIR": wt + "/target"}
     def demo(tag):
-        cmd = meta.get("demo_cmd", "")
-        cmd = re.sub(r"/tmp/mut-C\d+/out/\d+", dst, cmd); cmd = re.sub(r"/tmp/mut-C\d+", wt, cmd)
-        rc, out = sh(cmd, cwd=wt, env=tdir)
-        failed = ("FAILED" in out) or ("panicked" in out) or (rc != 0 and "test result: ok" not in out.split("Running")[-1])
-        passed = re.search(r"test result: ok\. [1-9]", out) is not None and "FAILED" not in out
+        m = re.search(r"-p (crux_\w+)", meta.get("demo_cmd", "")); crate = m.group(1) if m else crates[0]
+        feat = "--all-features" if crate == "crux_time" else ""
+        demos = [f for f in os.listdir(dst) if f.startswith("demo") and f.endswith(".rs")]
+        if demos:
+            os.makedirs(os.path.join(wt, crate, "tests"), exist_ok=True)
+            tdst = os.path.join(wt, crate, "tests", "seed_demo.rs"); shutil.copy(os.path.join(dst, demos[0]), tdst)
+            cmd = "cargo test -p %s --offline %s -j 6 --test seed_demo" % (crate, feat)
+            rc, out = sh(cmd, cwd=wt, env=tdir); os.remove(tdst)
+        elif os.path.isdir(os.path.join(dst, "demo")):
+            # a demo crate with path dependencies on the scratch tree: repoint them, exit status decides
+            dd = os.path.join(wt, "seed_demo_crate"); shutil.rmtree(dd, ignore_errors=True); shutil.copytree(os.path.join(dst, "demo"), dd, ignore=shutil.ignore_patterns("target"))
+            ct = os.path.join(dd, "Cargo.toml"); t = re.sub(r"/tmp/mut-C\d+", wt, open(ct).read()); open(ct, "w").write(t)
+            shutil.copy(os.path.join(wt, "Cargo.lock"), os.path.join(dd, "Cargo.lock"))
+            cmd = "cargo run --offline -j 6"
+            rc, out = sh(cmd, cwd=dd, env={"CARGO_TARGET_DIR": wt + "/target-demo"})
+            rec["ran"].append({"step": "demo " + tag, "cmd": cmd, "failed": rc != 0, "passed": rc == 0, "tail": out[-600:]})
+            shutil.rmtree(dd, ignore_errors=True)
+            return rc != 0, rc == 0
+        else:
+            cmd = meta.get("demo_cmd", "false")
+            cmd = re.sub(r"/tmp/mut-C\d+/out/\d+", dst, cmd); cmd = re.sub(r"/tmp/mut-C\d+", wt, cmd)
+            rc, out = sh(cmd, cwd=wt, env=tdir)
+        passed = re.search(r"test result: ok\. [1-9]", out) is not None and "FAILED" not in out and rc == 0
+        failed = not passed
         rec["ran"].append({"step": "demo " + tag, "cmd": cmd, "failed": failed, "passed": passed, "tail": out[-600:]})
         return failed, passed
     ok_confirm = True
@@ -45,7 +64,7 @@ def main():
         for c in crates:
             feat = "--all-features" if c == "crux_time" else ""
             rc, out = sh("cargo test -p %s --offline %s --lib --tests -j 6 2>&1 | grep -E '^test result|FAILED|error' " % (c, feat), cwd=wt, env=tdir)
-            good = "FAILED" not in out and "error" not in out and "test result: ok" in out
+            good = "FAILED" not in out and not re.search(r"^error", out, re.M) and "test result: ok" in out
             rec["ran"].append({"step": "existing tests of %s with change" % c, "ok": good, "tail": out[-400:]}); ok_confirm &= good
         f1, p1 = demo("with change")
         rec["confirmed"] = bool(ok_confirm and p0 and not f0 and f1)
